@@ -208,7 +208,7 @@ def model_rows(forests):
     """forests: list of Forest (already laid out).  Returns per forest {raw: [...], cooked: [...], rawunits, cookedunits}"""
     text = "".join(forest_text(f) for f in forests)
     rc, out, err = common.run(["bash", "-c", "ulimit -s 4000000 2>/dev/null; exec %s dw" % common.model_bin()], input=text, timeout=900)
-    res, cur = [], {"raw": [], "cooked": []}
+    res, cur = [], {"raw": [], "cooked": [], "find": {}}
     for line in out.split("\n"):
         p = line.split(" ")
         if p[0] == "RAWUNITS":
@@ -221,9 +221,11 @@ def model_rows(forests):
             cur[p[0].lower()].append({"off": int(p[1]), "tag": int(p[2]), "flag": p[3] == "1", "parent": opt(p[4]), "kids": lst(p[5]),
                                       "attrs": [tuple(int(y) for y in x.split(":")) for x in p[6][1:-1].split(",") if x],
                                       "root": opt(p[7]), "unit": opt(p[8])})
+        elif p[0] == "FIND":
+            cur["find"][int(p[1])] = {int(x.split("=")[0]): (None if x.split("=")[1] == "-" else tuple(int(y) for y in x.split("=")[1].split(":"))) for x in p[2:] if x}
         elif p[0] == "END":
             res.append(cur)
-            cur = {"raw": [], "cooked": []}
+            cur = {"raw": [], "cooked": [], "find": {}}
     if len(res) != len(forests):
         raise RuntimeError("zwmodel dw: %d answers for %d forests: %s" % (len(res), len(forests), err[-300:]))
     return res
